@@ -2,7 +2,10 @@ module tvharness
 
 go 1.23.7
 
-require github.com/rbell/toolchest v0.0.0
+require (
+	github.com/google/uuid v1.6.0
+	github.com/rbell/toolchest v0.0.0
+)
 
 require github.com/google/btree v1.1.3 // indirect
 
